@@ -3,11 +3,11 @@
 //! functions: AstSize::cost Extractor::extract WithOrdRev::cmp WithOrdRev::partial_cmp
 //! Bound: AstSize::cost on nodes with 0..4 children and child costs from {0, 1, 2, 7, u64::MAX-1, u64::MAX};
 //! WithOrdRev::partial_cmp / cmp on all pairs of costs from {0, 1, 2, 3, 10, u64::MAX}.
-//! Extractor::new / Extractor::extract (outside the contracts: BinaryHeap, class_nf, usages): 12 hand-written e-graphs
+//! Extractor::new / Extractor::extract (outside the contracts: BinaryHeap, class_nf, usages): 15 hand-written e-graphs
 //! with redundant slots / symmetric classes plus 150 (deep: 3000) pseudo-random ones (a term of depth <= 3 over a
 //! lambda/arithmetic language, a random subset of 17 rules, <= 3 rounds, <= 300 nodes); after every round EVERY class is
-//! extracted with AstSize (public entry point) and with three cost functions of the kinds C06 names (size, depth-weighted
-//! size 1 + 2*children, per-operator weights where a constant can be heavier than a composite term): the term must look
+//! extracted with AstSize (public entry point) and with five cost functions of the kinds C06 names (size, depth-weighted
+//! size 1 + 2*children, per-operator weights where a constant can be heavier than a composite term, position weights, both): the term must look
 //! up to the class it was extracted from, its recomputed cost must equal the reported best cost and the least cost
 //! computed by an independent fixpoint over `enodes` (Bellman-Ford, no heap, no class_nf).
 //! also-with-features: checks
@@ -80,8 +80,10 @@ const XRULES: [(&str, &str, &str); 17] = [
 ];
 /// cost functions of the three kinds C06 names; all are `own(node) + mult * sum(children)`, strictly monotone
 #[derive(Clone, Copy, Debug)]
-struct Lin { name: &'static str, mult: u64, weighted: bool }
+struct Lin { name: &'static str, mult: u64, weighted: bool, positional: bool }
 impl Lin {
+    /// the weight of the k-th child
+    fn factor(&self, k: usize) -> u64 { if self.positional { 1 + 2 * k as u64 } else { self.mult } }
     fn own(&self, n: &XL) -> u64 {
         if !self.weighted { return 1; }
         // a constant may be heavier than a composite term
@@ -92,11 +94,12 @@ impl CostFunction<XL> for Lin {
     type Cost = u64;
     fn cost<C>(&self, enode: &XL, costs: C) -> u64 where C: Fn(Id) -> u64 {
         let mut s = self.own(enode);
-        for x in enode.applied_id_occurrences() { s = s.saturating_add(self.mult.saturating_mul(costs(x.id))); }
+        for (k, x) in enode.applied_id_occurrences().into_iter().enumerate() { s = s.saturating_add(self.factor(k).saturating_mul(costs(x.id))); }
         s
     }
 }
-const COSTS: [Lin; 3] = [Lin { name: "AstSize-like", mult: 1, weighted: false }, Lin { name: "depth-weighted (1 + 2*children)", mult: 2, weighted: false }, Lin { name: "per-operator weights", mult: 1, weighted: true }];
+const COSTS: [Lin; 5] = [Lin { name: "AstSize-like", mult: 1, weighted: false, positional: false }, Lin { name: "depth-weighted (1 + 2*children)", mult: 2, weighted: false, positional: false }, Lin { name: "per-operator weights", mult: 1, weighted: true, positional: false },
+    Lin { name: "position weights (child k counts 1 + 2k times)", mult: 1, weighted: false, positional: true }, Lin { name: "per-operator and position weights", mult: 1, weighted: true, positional: true }];
 /// least cost per class by a plain fixpoint over the e-nodes (independent of Extractor)
 fn reference_costs(eg: &XG, cf: &Lin) -> std::collections::HashMap<Id, u64> {
     let mut cost: std::collections::HashMap<Id, u64> = Default::default();
@@ -104,7 +107,7 @@ fn reference_costs(eg: &XG, cf: &Lin) -> std::collections::HashMap<Id, u64> {
         let mut changed = false;
         for i in eg.ids() { for n in eg.enodes(i) {
             let mut c: u64 = cf.own(&n); let mut known = true;
-            for ch in n.applied_id_occurrences() { match cost.get(&eg.find_id(ch.id)) { Some(x) => c = c.saturating_add(cf.mult.saturating_mul(*x)), None => known = false } }
+            for (k, ch) in n.applied_id_occurrences().into_iter().enumerate() { match cost.get(&eg.find_id(ch.id)) { Some(x) => c = c.saturating_add(cf.factor(k).saturating_mul(*x)), None => known = false } }
             if known && cost.get(&i).map(|x| c < *x).unwrap_or(true) { cost.insert(i, c); changed = true; }
         }}
         if !changed { return cost; }
@@ -208,6 +211,11 @@ pub fn run(only: &[String]) -> Vec<String> {
             (vec!["(sub (var $1) (var $2))", "(add (var $2) (var $1))", "(g (add (var $2) (var $1)))", "(mul (add (var $2) (var $1)) one)"], vec![(0, 1)]),
             (vec!["(g (var $1))", "(add (var $1) (var $1))", "(g (add (var $1) (var $1)))", "(mul (add (var $1) (var $1)) one)"], vec![(0, 1)]),
             (vec!["(lam $1 (add (var $1) (var $2)))", "(g (var $2))", "(mul (g (var $2)) (g (var $2)))", "(sub (g (var $2)) one)"], vec![(0, 1)]),
+            // two e-nodes of one class over the same child classes that only a weighted cost function tells apart (in both
+            // orders of appearance, and with the children swapped)
+            (vec!["(sub (var $1) (var $2))", "(add (var $1) (var $2))", "(mul (var $3) (var $4))", "(add (var $3) (var $4))", "(sub (var $5) (var $6))", "(mul (var $5) (var $6))", "(g (sub (var $1) (var $2)))"], vec![(0, 1), (2, 3), (4, 5)]),
+            (vec!["(add (var $1) (var $2))", "(sub (var $1) (var $2))", "(add (var $3) (var $4))", "(mul (var $3) (var $4))", "(mul (var $5) (var $6))", "(sub (var $5) (var $6))", "(g (g (add (var $1) (var $2))))"], vec![(0, 1), (2, 3), (4, 5)]),
+            (vec!["(sub (var $1) (g (g (g (var $2)))))", "(sub (g (g (g (var $2)))) (var $1))", "(add (g (var $3)) (g (g (g (g (var $4))))))", "(add (g (g (g (g (var $4))))) (g (var $3)))"], vec![(0, 1), (2, 3)]),
             // a constant together with a composite term that is cheaper under the per-operator weights, and classes above it
             (vec!["zero", "(g one)"], vec![(0, 1)]),
             (vec!["(add zero (var $1))", "zero", "(g (g one))"], vec![(1, 2)]),
